@@ -82,6 +82,7 @@ const maxScratchCacheKB = 12 << 20 // 12 GB
 func maintainScratchCache() {
 	dir := scratchCache()
 	os.MkdirAll(dir, 0777)
+	lockScratchCache()
 	cf := filepath.Join(dir, ".vgocc-runs")
 	n := 0
 	if b, err := os.ReadFile(cf); err == nil {
@@ -98,10 +99,52 @@ func maintainScratchCache() {
 	}
 	kb := 0
 	fmt.Sscan(string(out), &kb)
-	if kb > maxScratchCacheKB {
-		os.RemoveAll(dir)
-		os.MkdirAll(dir, 0777)
+	if kb > maxScratchCacheKB && cacheLock != nil {
+		// wipe only when no other run is using the cache: every run holds a shared lock for its
+		// lifetime, the wipe needs the exclusive one
+		fd := int(cacheLock.Fd())
+		syscall.Flock(fd, syscall.LOCK_UN)
+		if syscall.Flock(fd, syscall.LOCK_EX|syscall.LOCK_NB) == nil {
+			os.RemoveAll(dir)
+			os.MkdirAll(dir, 0777)
+		}
+		syscall.Flock(fd, syscall.LOCK_SH)
 	}
+}
+
+// goOutput runs a go command and retries it when the failure is the build cache losing entries
+// under it (another process trimming or wiping the shared scratch cache): that says nothing
+// about the code being built.
+func goOutput(dir string, args ...string) ([]byte, error) {
+	var out []byte
+	var err error
+	for try := 0; try < 4; try++ {
+		cmd := exec.Command(GoBin(), args...)
+		cmd.Dir = dir
+		cmd.Env = goEnv()
+		out, err = cmd.CombinedOutput()
+		if err == nil || !(bytes.Contains(out, []byte("vgocc-gocache")) && bytes.Contains(out, []byte("no such file or directory"))) {
+			return out, err
+		}
+		time.Sleep(time.Duration(5*(try+1)) * time.Second)
+	}
+	return out, err
+}
+
+var cacheLock *os.File
+
+// lockScratchCache takes the shared lock that keeps concurrent runs from wiping the cache
+// under this one.
+func lockScratchCache() {
+	if cacheLock != nil {
+		return
+	}
+	f, err := os.OpenFile(scratchCache()+".lock", os.O_CREATE|os.O_RDWR, 0666)
+	if err != nil {
+		return
+	}
+	syscall.Flock(int(f.Fd()), syscall.LOCK_SH)
+	cacheLock = f
 }
 
 // Workspace is one scratch directory (outside /repo and /verif), removed by Close.
@@ -137,10 +180,7 @@ func NewWorkspace() (*Workspace, error) {
 	if err := os.WriteFile(filepath.Join(dir, "go.mod"), []byte("module "+ModPath+"\n\ngo 1.24\n"), 0666); err != nil {
 		return nil, err
 	}
-	cmd := exec.Command(GoBin(), "build", "-tags", "verif", "-o", w.Gocc, ".")
-	cmd.Dir = RepoDir
-	cmd.Env = goEnv()
-	if out, err := cmd.CombinedOutput(); err != nil {
+	if out, err := goOutput(RepoDir, "build", "-tags", "verif", "-o", w.Gocc, "."); err != nil {
 		w.Close()
 		return nil, fmt.Errorf("building gocc from %s failed: %v\n%s", RepoDir, err, out)
 	}
@@ -396,20 +436,14 @@ func (w *Workspace) BuildDriver(drvName string, race bool) (bin string, out stri
 		args = append(args, "-race")
 	}
 	args = append(args, "-o", bin, "./cmd/"+drvName)
-	cmd := exec.Command(GoBin(), args...)
-	cmd.Dir = w.Dir
-	cmd.Env = goEnv()
-	b, e := cmd.CombinedOutput()
+	b, e := goOutput(w.Dir, args...)
 	return bin, string(b), e
 }
 
 // GoBuild runs `go build` (or vet) on package patterns inside the scratch module.
 func (w *Workspace) GoBuild(patterns ...string) (string, error) {
 	args := append([]string{"build"}, patterns...)
-	cmd := exec.Command(GoBin(), args...)
-	cmd.Dir = w.Dir
-	cmd.Env = goEnv()
-	b, e := cmd.CombinedOutput()
+	b, e := goOutput(w.Dir, args...)
 	return string(b), e
 }
 
@@ -524,10 +558,7 @@ func (w *Workspace) BuildInproc(verifRoot, name string) (string, error) {
 		os.WriteFile(filepath.Join(w.Dir, "inproc.sum"), sum, 0666)
 	}
 	bin := filepath.Join(w.Dir, "bin", name)
-	cmd := exec.Command(GoBin(), "build", "-modfile="+modFile, "-tags", "verif", "-o", bin, "./cmd/"+name)
-	cmd.Dir = verifRoot
-	cmd.Env = goEnv()
-	if out, err := cmd.CombinedOutput(); err != nil {
+	if out, err := goOutput(verifRoot, "build", "-modfile="+modFile, "-tags", "verif", "-o", bin, "./cmd/"+name); err != nil {
 		return "", fmt.Errorf("building %s failed: %v\n%s", name, err, out)
 	}
 	return bin, nil
@@ -540,9 +571,6 @@ func (w *Workspace) WriteTemplate(tname, dst string, replace map[string]string) 
 
 // GoBuildIn runs `go build -o out pkg` in a sub directory of the workspace.
 func (w *Workspace) GoBuildIn(sub, out, pkg string) (string, error) {
-	cmd := exec.Command(GoBin(), "build", "-o", out, pkg)
-	cmd.Dir = filepath.Join(w.Dir, sub)
-	cmd.Env = goEnv()
-	b, e := cmd.CombinedOutput()
+	b, e := goOutput(filepath.Join(w.Dir, sub), "build", "-o", out, pkg)
 	return string(b), e
 }
